@@ -241,6 +241,54 @@ class C07(Prop):
             mine = [sum((F(t_.cost_of_commissions) for t_ in tr[i].trades), Fraction(0)) for i in range(n)]
             if any(abs(a - b) > tol for a, b in zip(fees, mine)):
                 r.fail("transaction-costs-frame")
+            # spread column: |quantity| x multiplier x (ask - bid) of each recorded trade, at the recorded quotes
+            spr = [F(x) for x in tc["Spread"].tolist()]
+            mine_s = [sum((abs(F(t_.quantity)) * F(t_.contract.multiplier) * (F(t_.ask_price) - F(t_.bid_price))
+                           for t_ in tr[i].trades), Fraction(0)) for i in range(n)]
+            if any(abs(a - b) > tol for a, b in zip(spr, mine_s)):
+                r.fail("transaction-costs-frame", column="Spread", reported=[float(x) for x in spr][:6],
+                       expected=[float(x) for x in mine_s][:6])
+            intr = [F(x) for x in tc["Profit on idle Cash"].tolist()]
+            if any(abs(a - F(tr[i].profit_on_idle_cash)) > tol for i, a in enumerate(intr)):
+                r.fail("transaction-costs-frame", column="Profit on idle Cash")
+            # the weights frames report the snapshots' weights (float32 frames: 1e-5 relative)
+            import warnings
+            with warnings.catch_warnings():
+                warnings.simplefilter("ignore")
+                for before, pick in ((True, lambda e_: e_.context_pre), (False, lambda e_: e_.context_post)):
+                    try:
+                        wa = tr.weights_actual(before_rebalancing=before)
+                    except Exception as ex_:  # noqa
+                        r.trace.append(f"weights_actual raised {type(ex_).__name__}")
+                        continue
+                    for i in range(n):
+                        ctxw = pick(tr[i]).weights
+                        for c_, w_ in ctxw.items():
+                            if c_ in wa.columns:
+                                got_w = float(wa.iloc[i][c_])
+                                if got_w == got_w and abs(got_w - float(w_)) > 1e-5 * max(1.0, abs(float(w_))):
+                                    r.fail("weights-frame", entry=i, before=before, key=str(c_), reported=got_w, expected=float(w_))
+            # each snapshot's weights are position x liquidation price x multiplier / NLV of the same snapshot
+            for i in range(n):
+                for which, ctx in (("pre", tr[i].context_pre), ("post", tr[i].context_post)):
+                    nlv_ = F(ctx.nlv)
+                    if nlv_ == 0:
+                        continue
+                    for c_, w_ in ctx.weights.items():
+                        if type(c_).__name__ == "Cash" or c_.symbol not in s.specs:
+                            continue
+                        q_ = F(ctx.nr_contracts.get(c_, 0.0))
+                        if q_ == 0:
+                            continue
+                        b_, a_ = quote_at(c_.symbol, times[i])
+                        px_ = b_ if q_ > 0 else a_
+                        if px_ is None:
+                            continue
+                        want_w = q_ * px_ * s.specs[c_.symbol][0] / nlv_
+                        if abs(F(w_) - want_w) > Fraction(1, 10**8) * max(1, abs(want_w)):
+                            r.fail("snapshot-inconsistent", entry=i, which=which, key=c_.symbol, weight=float(w_),
+                                   expected=float(want_w), clause="each reported weight equals position x liquidation "
+                                   "price x multiplier / NLV", theorem="weight_def (C05)")
         return r
 
 
